@@ -4,7 +4,7 @@ import vlib
 
 PROP = "C13"
 NAMES = ('{"g", "inc", "withidx", "optidx", "restall", "restafter", "closure", "fact", "isev", "isod", "small", "first", "notbool", '
-         '"failing", "acc2", "acc3", "two", "allocp", "accl", "cnt", "x", "i", "j", "r", "a", "cb", "ys"}')
+         '"failing", "acc2", "acc3", "two", "allocp", "accl", "cnt", "nullp", "x", "i", "j", "r", "a", "cb", "ys"}')
 
 
 def cfg(maxl):
